@@ -85,6 +85,13 @@ func vpH_C15_of_object() {
 	which := vpChoice(3)
 	c := []CollectionPath{Likes, Shares, Replies}[which]
 	ob := &Object{ID: id, Type: NoteType}
+	var holder Item = ob
+	if vpBool() {
+		// likes, shares and replies of an actor: an actor is an object too
+		act := &Actor{ID: id, Type: []ActivityVocabularyType{PersonType, ServiceType, GroupType}[vpChoice(3)]}
+		holder = act
+		ob, _ = ToObject(act)
+	}
 	set := vpBool()
 	if set {
 		// the explicit collection is given as its IRI or as an embedded collection that has that id
@@ -104,8 +111,8 @@ func vpH_C15_of_object() {
 			ob.Replies = val
 		}
 	}
-	got := c.Of(ob)
-	gotIRI := c.IRI(ob)
+	got := c.Of(holder)
+	gotIRI := c.IRI(holder)
 	if set {
 		vpAssert("of/explicit", got != nil && got.GetLink() == explicit)
 		vpAssert("iri/explicit", gotIRI == explicit)
@@ -116,7 +123,7 @@ func vpH_C15_of_object() {
 	// the other collections are unaffected
 	for i, oc := range []CollectionPath{Likes, Shares, Replies} {
 		if i != which {
-			vpAssert("of/others-built", oc.IRI(ob) == IRIf(id, oc))
+			vpAssert("of/others-built", oc.IRI(holder) == IRIf(id, oc))
 		}
 	}
 	vpReach("end")
